@@ -842,9 +842,15 @@ static void judgeEntity(const Source &src, size_t ei, Ctx &c, const json &where)
     if (kind == "component" || kind == "model") {
         auto partition = [](const EntityPtr &root) {
             std::vector<const void *> seq;
+            ModelPtr rootModel = std::dynamic_pointer_cast<Model>(root);
             std::function<void(const ComponentPtr &)> walk = [&](const ComponentPtr &comp) {
                 if (comp->isImport()) seq.push_back(comp->importSource().get());
-                for (size_t i = 0; i < comp->variableCount(); ++i) if (comp->variable(i)->units() && comp->variable(i)->units()->isImport()) seq.push_back(comp->variable(i)->units()->importSource().get());
+                // a variable's units counts as an imported entity of its own unless the cloned MODEL owns it (those are listed once,
+                // through the model; WHICH of two content-equal model units a cloned variable is linked to is not serialised)
+                for (size_t i = 0; i < comp->variableCount(); ++i) {
+                    auto u = comp->variable(i)->units();
+                    if (u && u->isImport() && !(rootModel && u->parent() == rootModel)) seq.push_back(u->importSource().get());
+                }
                 for (size_t i = 0; i < comp->componentCount(); ++i) walk(comp->component(i));
             };
             if (auto m = std::dynamic_pointer_cast<Model>(root)) {
